@@ -319,6 +319,17 @@ class Report:
         return False
 
     def finish(self):
+        # consistency between verdict and obligations: with exit 0 every obligation must be discharged.
+        # An obligation that failed only through a listed known finding holds "except for that finding";
+        # any other undischarged obligation without a reported violation is itself reported.
+        pending = [n for n, ok in self.obligations if not ok]
+        if pending and not self.violations:
+            if self.known:
+                self.obligations = [(n if ok else n + ' - holds except for the listed known finding(s) reported by this run', True)
+                                    for n, ok in self.obligations]
+            else:
+                self.violation({'property': self.prop, 'broken': 'obligation(s) not discharged although no violation was reported',
+                                'obligations': pending}, nofail=True, text='undischarged: ' + '; '.join(pending)[:500])
         cov = dict(self.coverage)
         cov['obligations'] = len(self.obligations)
         cov['discharged'] = sum(1 for _, ok in self.obligations if ok)
